@@ -114,3 +114,20 @@ def run_crosscheck(repo, task):
         rep['status'] = 'checker-fault'
         rep['detail'] = f'pyvc disagrees with CPython on {key}: {r["problems"][:2]}'
     return rep
+
+
+def run_g3(repo, task):
+    """G3 ownership obligations (pyvc.ownership): an argument handed over as owned is never an alias of a grow-able member of the receiver"""
+    from pyvc.ownership import analyse
+    t0 = time.time()
+    sites = analyse(repo)
+    items, failures = [], []
+    for s in sites:
+        items.append(dict(name=s['sid'], fn=s['sid'].split(':')[2], kind='G3', verdict=s['verdict'], backend='path-enumeration', ms=0.0, note=f"L{s['lineno']} {s['note']}"))
+        if s['verdict'] == 'refuted':
+            failures.append(dict(key=s['sid'], what=f"G3 ownership obligation refuted at L{s['lineno']}: {s['note']}", nofail=True,
+                                 replay=dict(site=s['sid'], lineno=s['lineno'], note=s['note'], analysis='pyvc.ownership')))
+    return dict(name=task['name'], status='ok' if items else 'checker-fault', items=items, failures=failures, evaluations=0, distinct=0, rule='',
+                samples=[dict(site=i['name'], verdict=i['verdict']) for i in items[:3]],
+                trusted=['pyvc/ownership.py tracks aliases of self._columns / self._blocks through local names only (not through containers or helper calls)'],
+                assumptions=[], wall_s=round(time.time() - t0, 2))
